@@ -232,6 +232,8 @@ class Rec:
         self.pt = a
         self.jets = Seq(jets)
         self.trk = Seq(trk)
+        # a mapping to spread into dictionary literals ({'a': x, **e.d}): it defines 'a' for some records only
+        self.d = {"a": 7 * a + 1, "zz": 0} if isinstance(a, int) and a % 2 == 0 else {}
 
     def m(self, x=1, k=0):
         return self.a * x + k
@@ -495,6 +497,10 @@ class QueryGen:
                 k, ti = self.r.choice(t[1])
                 ck = ast.IfExp(test=self.leaf(BOOL, env, self.vars_of(env, BOOL)), body=C(k), orelse=C("zz"))
                 items.insert(self.r.randrange(len(items) + 1), (ck, self.expr(ti, env, d - 1)))
+            recs = self.vars_of(env, REC)
+            if recs and self.r.random() < 0.12:
+                # a spread mapping: it may redefine every key written before it
+                items.insert(self.r.randrange(len(items) + 1), (None, A(N(self.r.choice(recs)), "d")))
             return gen.dct(items)
         raise ValueError(t)
 
